@@ -212,6 +212,76 @@ theorem foldL_coll {σ : Sub} {e : Expr} {k : Coll} {c : Expr} (h : ER .expr σ 
   · exact ER.foldL h1 h2 h
   · exact h
 
+/-! ## compile-time failure (`cerr`) -/
+
+theorem poisoned_stripParens (e : Expr) : poisoned (stripParens e) = poisoned e := by
+  induction e with
+  | paren e ih => simpa [stripParens, poisoned] using ih
+  | _ => rfl
+
+theorem poisoned_asFunction (e : Expr) : poisoned (asFunction e).2 = poisoned e := by
+  unfold asFunction
+  split
+  · rename_i p b heq
+    have := poisoned_stripParens e
+    rw [heq] at this
+    simpa [poisoned] using this
+  · rfl
+
+theorem foldColl_ok (po : Bool) {k : Coll} {c : Expr} {es : List (String × V × V)} {v : V}
+    (h1 : litsOf c = some es) (h2 : mkColl k es = .ok v) : foldColl po k c = .lit v := by
+  simp [foldColl, h1, h2]
+
+theorem foldColl_fail_true {k : Coll} {c : Expr} {es : List (String × V × V)}
+    (h1 : litsOf c = some es) (h2 : ∀ v, mkColl k es ≠ .ok v) : foldColl true k c = .cerr := by
+  unfold foldColl
+  rw [h1]
+  cases h3 : mkColl k es with
+  | ok v => exact absurd h3 (h2 v)
+  | _ => simp
+
+theorem foldColl_none (po : Bool) {k : Coll} {c : Expr} (h1 : litsOf c = none) : foldColl po k c = .coll k c := by
+  simp [foldColl, h1]
+
+theorem litsOf_unpoisoned (c : Expr) : ∀ es, litsOf c = some es → poisoned c = false := by
+  induction c with
+  | nil => intro es _; rfl
+  | cons n key val rest _ _ ihr =>
+    intro es h
+    cases val <;> cases key <;> simp [litsOf] at h
+    all_goals
+      obtain ⟨r, hr, _⟩ := h
+      simp [poisoned, ihr r hr]
+  | _ => intro es h; simp [litsOf] at h
+
+/-- where today's compiler does not fail at compile time it produces what the never-failing compiler produces -/
+theorem compile_eq_of_unpoisoned (a : Ast) :
+    poisoned (compileG true true a) = false → compileG true true a = compileG true false a := by
+  induction a with
+  | coll k items ih =>
+    intro h
+    rw [compileG_coll_true] at h ⊢
+    rw [compileG_coll_true]
+    cases h1 : litsOf (compileG true true items) with
+    | some es =>
+      have hc := ih (litsOf_unpoisoned _ es h1)
+      rw [← hc]
+      cases h2 : mkColl k es with
+      | ok v => rw [foldColl_ok _ h1 h2, foldColl_ok _ h1 h2]
+      | err => rw [foldColl_fail_true h1 (by simp [h2])] at h; simp [poisoned] at h
+      | oof => rw [foldColl_fail_true h1 (by simp [h2])] at h; simp [poisoned] at h
+      | unsup => rw [foldColl_fail_true h1 (by simp [h2])] at h; simp [poisoned] at h
+    | none =>
+      rw [foldColl_none _ h1] at h ⊢
+      simp only [poisoned] at h
+      have hc := ih h
+      rw [← hc, foldColl_none _ h1]
+  | opDot op l f ihl ihf =>
+    intro h
+    simp only [compileG, poisoned, Bool.or_eq_false_iff, poisoned_asFunction] at h
+    simp only [compileG, ihl h.1, ihf h.2]
+  | _ => intro h; simp_all [compileG, poisoned]
+
 /-! ## the rewrite relation on source terms -/
 
 inductive AR : K → Sub → Ast → Ast → Prop
